@@ -480,15 +480,21 @@ Definition prob_ok (p : prob_lit) : bool :=
       end)
   && blanks (p_trail p) && fits (render_prob p).
 
-(* n = declared vertex count *)
-Definition edge_ok (n : Z) (e : edge_lit) : bool :=
+(* format of an edge line, both vertex numbers representable as int *)
+Definition edge_fmt (e : edge_lit) : bool :=
   ((e_letter e =? 97) || (e_letter e =? 101))
   && blanks (e_sep1 e)
-  && int_ok (e_u e) && (1 <=? int_value (e_u e)) && (int_value (e_u e) <=? n) && (int_value (e_u e) <=? 2 ^ 31 - 1)
+  && int_ok (e_u e) && (- 2 ^ 31 <=? int_value (e_u e)) && (int_value (e_u e) <=? 2 ^ 31 - 1)
   && nonempty (e_sep2 e) && blanks (e_sep2 e)
-  && int_ok (e_v e) && (1 <=? int_value (e_v e)) && (int_value (e_v e) <=? n) && (int_value (e_v e) <=? 2 ^ 31 - 1)
+  && int_ok (e_v e) && (- 2 ^ 31 <=? int_value (e_v e)) && (int_value (e_v e) <=? 2 ^ 31 - 1)
   && (match e_w e with None => true | Some (sep, w) => nonempty sep && blanks sep && wlit_ok w end)
   && blanks (e_trail e) && fits (render_edge e).
+
+(* both vertices are declared; n = declared vertex count *)
+Definition declared (n : Z) (e : edge_lit) : bool :=
+  (1 <=? int_value (e_u e)) && (int_value (e_u e) <=? n) && (1 <=? int_value (e_v e)) && (int_value (e_v e) <=? n).
+
+Definition edge_ok (n : Z) (e : edge_lit) : bool := edge_fmt e && declared n e.
 
 Definition line_ok (n : Z) (l : line) : bool :=
   match l with LSkip t => skip_ok t | LEdge e => edge_ok n e end.
@@ -527,10 +533,8 @@ Definition dweight_lit (w : dweight) : wlit :=
 Definition canonical_edge (e : Z * Z * dweight) : line :=
   let '(u, v, w) := e in
   LEdge (mkEdge 101 [32] (mkInt None (to_digits (u + 1))) [32] (mkInt None (to_digits (v + 1)))
-                (match w with
-                 | (1, O) => None                                (* weight 1 is omitted *)
-                 | _ => Some ([32], dweight_lit w)
-                 end) []).
+                (if (fst w =? 1) && Nat.eqb (snd w) 0 then None        (* weight 1 is omitted *)
+                 else Some ([32], dweight_lit w)) []).
 
 Definition canonical_layout (final_nl : bool) (g : dgraph) : layout :=
   mkLayout [] (mkProb [32] [101; 100; 103; 101] [32] (mkInt None (to_digits (fst g)))
